@@ -13,7 +13,8 @@
 EXTENDS Rapid, Json
 
 CONSTANTS Slack,        \* one-sided allowance (ms) for upper time bounds
-          RestoreSlack  \* "shortly after" the hook timeout (ms)
+          RestoreSlack, \* "shortly after" the hook timeout (ms)
+          AnswerSlack   \* a computed answer reaches its (live) client within this many ms
 
 VARIABLES l,    \* position of the next trace line
           tp,   \* number of lifecycle events of st.tel already matched
@@ -39,6 +40,20 @@ Proc(t) == <<IF t.pk = "rt" THEN RtBase ELSE t.base, t.gen>>
 \* lower bound of "now" for an internal step: the time of the last consumed event
 PrevT == IF l > 1 THEN TraceLog[l - 1].t ELSE 0
 NextT == IF l <= Len(TraceLog) THEN TraceLog[l].t ELSE PrevT
+
+\* the answer of a call is computed silently; remember when (time of the last recorded event)
+StampDone(s2) ==
+    [s2 EXCEPT !.calls = [c \in DOMAIN s2.calls |->
+        IF s2.calls[c].st = "done" /\ ~(c \in DOMAIN st.calls /\ st.calls[c].st = "done")
+        THEN [s2.calls[c] EXCEPT !.tdone = PrevT] ELSE s2.calls[c]]]
+
+\* An answer that has been computed reaches a live client within AnswerSlack ms: a timer of the emulator (function
+\* timeout, deadline kill, exit grace, restore hook timeout) cannot be what happens next while an answer computed
+\* longer ago than that is still undelivered.  Together with the strict-timer rule (no timer while a step of the
+\* emulator - including waking a released poll - is enabled) this makes "the released poll was never answered"
+\* unexplainable instead of "answered just before the client was killed".
+NoStaleAnswer ==
+    \A c \in DOMAIN st.calls : (st.calls[c].st = "done" /\ ~st.calls[c].det) => NextT - st.calls[c].tdone <= AnswerSlack
 
 ----------------------------------------------------------------------------
 (* observable actions *)
@@ -162,6 +177,8 @@ TKillCall ==
        \* an extension subscribed to SHUTDOWN is killed only at the deadline, others at once
        \/ /\ ShutAgentKillEn(st, Proc(T))
           /\ (Proc(T) \in st.shutAwait /\ st.pcS.dl > 0 => T.t >= st.pcS.dl - 3)
+          \* the deadline kill of a SHUTDOWN subscriber is a timer: not while the emulator still owes somebody an answer
+          /\ (Proc(T) \in st.shutAwait /\ st.strictTimer => ~Urgent(st) /\ NoStaleAnswer)
           /\ st' = ShutAgentKillDo(st, Proc(T))
     /\ UNCHANGED tp /\ Adv
 
@@ -217,6 +234,13 @@ TRestoreRet ==
     /\ st' = RestoreReturnDo(st)
     /\ UNCHANGED tp /\ Adv
 
+\* an observation of the emulator's internal state made by the driver (runtime or agent automaton state)
+TObs ==
+    /\ Is("Obs")
+    /\ IF T.who = "rt" THEN st.rt = T.name
+       ELSE T.who \in Agents(st) /\ st.ag[T.who].st = T.name
+    /\ UNCHANGED <<st, tp>> /\ Adv
+
 THook ==
     /\ Is("Hook")
     /\ \/ T.ph = "enter" /\ HookEnterEn(st, T.point) /\ st' = HookEnterDo(st, T.point)
@@ -224,7 +248,7 @@ THook ==
     /\ UNCHANGED tp /\ Adv
 
 Observable ==
-    \/ THook
+    \/ THook \/ TObs
     \/ TRestoreCall \/ TRestoreRet
     \/ TBegin \/ TInitCall \/ TExec \/ TCall \/ TRet \/ TInvokeCall \/ TInvokeRet
     \/ TProcExit \/ TExitSend \/ TExitDelivered \/ TTerminate \/ TKillCall \/ TTel
@@ -234,6 +258,7 @@ Observable ==
 (* internal steps *)
 
 Step(en, do) == en /\ st' = do
+
 
 Internal ==
     /\ l <= Len(TraceLog)
@@ -255,6 +280,7 @@ Internal ==
             \/ Step(MainBeginEn(st, k), MainBeginDo(st, k))
             \/ Step(RelReserveEn(st, k), RelReserveDo(st, k))
             \/ Step(FioAwaitInitEn(st, k), FioAwaitInitDo(st, k))
+            \/ Step(FioInitFailedEn(st, k), FioInitFailedDo(st, k))
             \/ Step(FioShutdownEn(st, k), [FioShutdownDo(st, k) EXCEPT !.pcS.dl = PrevT + 2000])
             \/ Step(FioShutdownDoneEn(st, k), FioShutdownDoneDo(st, k))
             \/ Step(FioFastInvokeEn(st, k), FioFastInvokeDo(st, k))
@@ -271,7 +297,7 @@ Internal ==
             \* event), and - strict timer rule - not while the emulator itself still has something to do
             \/ Step(/\ MainTimeoutEn(st, k)
                     /\ T.t >= st.iv[k].t0 + st.timeoutMs - 2
-                    /\ (st.strictTimer => ~Urgent(st)),
+                    /\ (st.strictTimer => ~Urgent(st) /\ NoStaleAnswer),
                     MainTimeoutDo(st, k))
             \/ Step(MainAfterResetEn(st, k), MainAfterResetDo(st, k))
             \/ Step(MainAfterTimeoutEn(st, k), MainAfterTimeoutDo(st, k))
@@ -296,8 +322,8 @@ Internal ==
        \/ Step(WatchHandleEn(st), WatchHandleDo(st))
        \/ Step(WatchCancelEn(st), WatchCancelDo(st))
        \/ \E c \in DOMAIN st.calls :
-            \/ Step(EffectEn(st, c), EffectDo(st, c))
-            \/ Step(WakeEn(st, c), WakeDo(st, c))
+            \/ Step(EffectEn(st, c), StampDone(EffectDo(st, c)))
+            \/ Step(WakeEn(st, c), StampDone(WakeDo(st, c)))
             \/ Step(ReapEn(st, c), ReapDo(st, c))
 
 TraceInit == l = 1 /\ tp = 0 /\ fl = [sid |-> "", set |-> {}] /\ st = State0({}, {}) /\ TLCSet(1, 1)
